@@ -1213,12 +1213,15 @@ class OneSiteH(EffectiveH):
         adj.LP = self.LP.conj().ireplace_label('wR*', 'wR')
         adj.RP = self.RP.conj().ireplace_label('wL*', 'wL')
         adj.W0 = self.W0.conj().ireplace_labels(['wL*', 'wR*'], ['wL', 'wR'])
-        if self.combine:
-            adj.LHeff = self.LHeff.conj().ireplace_label('wR*', 'wR')
-            adj.RHeff = self.RHeff.conj().ireplace_label('wL*', 'wL')
         tensors = ['LP', 'RP', 'W0']
         if self.combine:
-            tensors.extend(['LHeff', 'RHeff'])
+            # `combine_Heff` builds only the one of LHeff / RHeff that fits the direction of the move
+            if self.move_right:
+                adj.LHeff = self.LHeff.conj().ireplace_label('wR*', 'wR')
+                tensors.append('LHeff')
+            else:
+                adj.RHeff = self.RHeff.conj().ireplace_label('wL*', 'wL')
+                tensors.append('RHeff')
         for key in tensors:
             getattr(adj, key).itranspose(getattr(self, key).get_leg_labels())
         return adj
